@@ -28,7 +28,9 @@ URI_HOSTS = [None, None, None, b"a", b"www.example.com", b"Example.COM", b"examp
 HOSTH = [b"a", b"www.example.com", b"Example.COM", b"EXAMPLE.com", b"example.com.", b"ex_ample-1.org", b"1.2.3.4", b"[::1]", b"[1:2::3]", b"[::ffff:1.2.3.4]",
          b"a..b", b"-", b"a b", b"", b".", b"a.", b"[::1", b"[::1]x", b"[]", b"[::g]", b"x" * 63, b"x" * 64, b"y" * 256, b"a\x00b", b"ex\xe4mple", b"a,b",
          b"[" + b"0" * 44 + b"]", b"[" + b"0" * 45 + b"]", b"WWW.Example.Com", b"a_b"]
-PORTS = [b"", b"", b"", b":80", b":8080", b":0", b":65535", b":65536", b":", b":abc", b": 80", b":080", b":443"]
+PORTS = [b"", b"", b"", b":80", b":8080", b":0", b":65535", b":65536", b":", b":abc", b": 80", b":080", b":443",
+         # values that are valid ports only after truncation to 16 / 32 / 64 bits
+         b":65616", b":4294967376", b":8589934673", b":4294967296", b":18446744073709551696", b":99999999999999999999", b":-80", b":+80"]
 URI_PORTS = [p for p in PORTS if b" " not in p]          # a space would end the request target
 OTHER_NAMES = [b"X-A", b"X-B", b"Accept", b"User-Agent", b"Content-Type", b"Cookie", b"X-Transfer-Encoding", b"Content-Length-X", b"Hostx", b"Transfer_Encoding"]
 OTHER_VALUES = [b"v", b"", b"a b", b"a,b", b"chunked", b"5", b"text/plain; charset=x", b"a:b", b"x" * 40]
@@ -200,7 +202,8 @@ def gen_requests(rng, n_random, thorough=False):
         for uh, up, hh, lab in [(b"a", b"", b"a", "same"), (b"a", b"", b"A", "case-only"), (b"Example.COM", b"", b"example.com", "case-only"),
                                 (b"a", b"", b"b", "differs"), (b"a", b":80", b"a:80", "same-port"), (b"a", b":80", b"a:81", "port-only"),
                                 (b"a", b":80", b"a", "port-absent-h"), (b"a", b"", b"a:80", "port-absent-u"), (b"a", b":80", b"a:abc", "port-invalid-h"),
-                                (b"a", b":0", b"a:81", "port-invalid-u"), (b"a", b"", b"a.", "trailing-dot"), (b"a.", b"", b"a", "trailing-dot-u"),
+                                (b"a", b":0", b"a:81", "port-invalid-u"), (b"a", b":80", b"a:4294967376", "port-wraps-32-h"), (b"a", b":80", b"a:65616", "port-wraps-16-h"),
+                                (b"a", b":4294967376", b"a:80", "port-wraps-32-u"), (b"a", b":80", b"a:18446744073709551696", "port-wraps-64-h"), (b"a", b"", b"a.", "trailing-dot"), (b"a.", b"", b"a", "trailing-dot-u"),
                                 (b"a", b"", b"", "empty-h"), (b"a", b"", b"a b", "invalid-h"), (b"[::1]", b"", b"[::1]", "v6"),
                                 (b"[::1]", b":80", b"[::1]:81", "v6-port"), (b"[::1]", b"", b"[::1", "v6-broken"), (b"a", b"", b"a, a", "dup-merged")]:
             for proto in protos[:2]:
